@@ -583,6 +583,7 @@ static void make_hostile_gram(ctx *c, vh_rng *r, vd_gram *g)
 }
 
 static long g_frames_so_far;
+static void *g_last_dag; static long g_last_dag_frames;   /* the lattice of the latest partial observation of this utterance (address only, never dereferenced) */
 static void observe(ctx *c, int final, long frames_searched)
 {
     vd_result res;
@@ -601,6 +602,10 @@ static void observe(ctx *c, int final, long frames_searched)
         else {
             dag2 = decoder_lattice(c->d);
             if ((MON & M_C11) && dag2 != dag) vh_viol("lattice_not_cached", "a second decoder_lattice() call without new audio returned a different object");
+            /* ending the utterance adds no audio: if it searched no further frame either, the lattice asked for before is still the lattice */
+            if ((MON & M_C11) && final && g_last_dag && g_last_dag_frames == (long)c->d->acmod->output_frame && dag != g_last_dag) vh_viol("lattice_not_cached|across_end_utt", "the lattice requested before decoder_end_utt() (%ld frames searched) and the one requested after it (no further frame searched) are different objects", g_last_dag_frames);
+            if ((MON & M_C11) && final && g_last_dag && g_last_dag_frames == (long)c->d->acmod->output_frame) vh_count("lattices_compared_across_end_utt", 1);
+            if (!final) { g_last_dag = (void *)dag; g_last_dag_frames = (long)c->d->acmod->output_frame; }
             if (lgraph_read(&g, dag) == 0) {
                 lgraph_topo(&g);
                 if (MON & M_C11) mon_c11(c, final, &g, &res);
@@ -651,7 +656,7 @@ static void run(long i, vh_rng *r)
         vh_inconc("the decoder refused the generated grammar (%s)", g.desc);
         goto out;
     }
-    g_frames_so_far = 0;
+    g_frames_so_far = 0; g_last_dag = NULL; g_last_dag_frames = -1;
     vd_run(c.d, &a, r, &p, partial_cb, &c, &info);
     if (info.failed) { vh_viol("utterance_call_failed", "start_utt=%d end_utt=%d after %ld processing calls on a valid scenario", info.start_ret, info.end_ret, info.ncalls); goto out; }
     {
